@@ -26,7 +26,7 @@ from ..drive import imports as drv
 
 PID = "C25"
 INVS = ["TypeOK", "StackNoDup", "Terminates", "OneClassSet", "DfsAgrees", "ResolvedAsDocumented",
-        "FailsOnlyWhenDangling", "FqnFileBased"]
+        "FailsOnlyWhenDangling", "FqnFileBased", "KindIsLocal"]
 # deviation clause -> invariant of Imports.tla it must break (rule 6, non-vacuity)
 DEV_BREAKS = {"ResolveWhenFileEnds": "ResolvedAsDocumented|FailsOnlyWhenDangling",
               "QualifiedRuleRefRejected": "FailsOnlyWhenDangling",
@@ -118,7 +118,7 @@ def skeleton_of(case, cid):
     """What FileInit of MC_Imports.tla reads: paths, import names split at the dots, rules, variant."""
     return dict(id=cid, names=case["names"], variant=case["variant"],
                 files=[dict(path=f["path"], imports=[imp.split(".") for imp in f["imports"]],
-                            rules=f["rules"][1:]) for f in case["files"]])
+                            defs=f["defs"]) for f in case["files"]])
 
 
 def _nontrivial(case, exp):
@@ -159,13 +159,14 @@ def explain(rep, pending, devs):
 
 
 def _brief(case, exp):
-    return dict(files={f["ns"]: dict(imports=f["imports"], rules=f["rules"][1:]) for f in case["files"]},
+    return dict(files={f["ns"]: dict(imports=f["imports"], rules=[" ".join(d).strip() for d in f["defs"]])
+                       for f in case["files"]},
                 variant=case["variant"]["kind"], status=exp["status"],
                 resolved=[r[:3] for r in exp["res"] if not r[1].startswith("P")][:8])
 
 
 def _why(case, o, exp):
-    files = "; ".join(f"{f['ns']}.tx: imports {f['imports']} rules {f['rules']} refs {f['refs']}"
+    files = "; ".join(f"{f['ns']}.tx: imports {f['imports']} rules {[' '.join(d).strip() for d in f['defs']]} refs {f['refs']}"
                       + (f" qrefs {f['qrefs']}" if f["qrefs"] else "") for f in case["files"])
     if o["status"] != exp["status"] or o["err"] != exp["err"]:
         return f"load of [{files}] ended {o['status']}/{o['err']} but Imports.tla prescribes {exp['status']}/{exp['err']}"
@@ -186,7 +187,7 @@ def random_skeletons(rng, count, names):
     out = []
     for c in range(count):
         nfiles = rng.randint(3, 6)
-        paths = [["m"]]
+        paths = [[rng.choice(["m", "m", "first", "syntax", "text"])]]
         while len(paths) < nfiles:
             p = list(rng.choice(DIRS)) + [rng.choice(FNAMES)]
             if p not in paths:
@@ -198,8 +199,17 @@ def random_skeletons(rng, count, names):
             cand = [q[len(d):] for q in paths if q[:len(d)] == d and len(q) > len(d)]
             k = rng.choice([0, 1, 1, 2, 2, 3])
             imps = [list(rng.choice(cand)) for _ in range(k)] if cand else []
-            rules = [n for n in names if rng.random() < 0.5]
-            files.append(dict(path=p, imports=imps, rules=rules))
+            defs = []
+            for n in names:
+                if rng.random() < 0.5:
+                    continue
+                if n == "A" and rng.random() < 0.3:
+                    defs.append([n, "alias", rng.choice(["B", "ID"])])
+                elif n in ("B", "ID") and (n == "ID" or rng.random() < 0.4):
+                    defs.append([n, "match", ""])
+                else:
+                    defs.append([n, "common", ""])
+            files.append(dict(path=p, imports=imps, defs=defs))
         # make every file reachable more often: the main grammar imports a few of the others
         if rng.random() < 0.7:
             extra = [q for q in paths[1:] if rng.random() < 0.5]
@@ -231,9 +241,11 @@ def run(rep):
     ]
     findings = common.open_findings(PID)
     devs = {f["id"]: f["deviation"] for f in findings}
-    plan = [("mf", "ABC", 2), ("mfg", "AB", 4), ("mgh", "A", 4), ("mfe", "A", 4)] if quick else \
-           [("m", "ABC", 1), ("mf", "ABC", 2), ("mfg", "AB", 6), ("mgh", "AB", 6), ("mfe", "AB", 8),
-            ("mfgh", "A", 8), ("mfeg", "A", 12), ("mfgk", "A", 8)]
+    plan = [("mf", "ABC", 2), ("mf", "K", 2), ("mf", "I", 2), ("first", "K", 2), ("syntax", "A", 3),
+            ("mfg", "AB", 4), ("mgh", "A", 3), ("mfe", "A", 4), ("mkhh", "A", 4)] if quick else \
+           [("m", "ABC", 1), ("mf", "ABC", 2), ("mf", "K", 2), ("mf", "I", 2), ("first", "ABC", 2), ("first", "K", 2),
+            ("syntax", "AB", 4), ("mfg", "AB", 6), ("mfg", "K", 12), ("mfg", "I", 8), ("mgh", "AB", 6), ("mfe", "AB", 8),
+            ("mfgh", "A", 8), ("mfeg", "A", 12), ("mfgk", "A", 8), ("mkhh", "AB", 12), ("mkhg", "A", 6)]
     if os.environ.get("VT_C25_PLAN"):      # development aid: "mf:AB:2,mfg:A:3"
         plan = [(a, b, int(c)) for a, b, c in (x.split(":") for x in os.environ["VT_C25_PLAN"].split(","))]
     pending = []
@@ -248,7 +260,7 @@ def run(rep):
         rep.bounds[f"universe_{univ}_{names}"] = dict(enumerated=n, replayed=len(items))
     rep.exhaustive = not quick
     nr = int(os.environ.get("VT_C25_RANDOM", 60 if quick else 600))
-    sk = random_skeletons(rng, nr, ["A", "B", "C"])
+    sk = random_skeletons(rng, nr, ["A", "B", "C", "ID"])
     m, items = evaluate_file_cases(sk)
     rep.add_mc("MC_Imports_File[random]", m, ["TypeOK", "StackNoDup", "Terminates"])
     if any(it["out"]["err"] == "nofile" for it in items):
